@@ -47,3 +47,31 @@ Lemma gen_sleb_truncated : forall bs v p q,
 Proof. intros bs v p q H E Q. rewrite gen_sleb_is_model, (sleb_decode_truncated bs v p q H E Q). reflexivity. Qed.
 Lemma gen_sleb_total : forall bs, all_bytes bs = true -> gen_SLEB128_parse bs = res_of_dec (sleb_spec bs).
 Proof. intros bs H. rewrite gen_sleb_is_model, (sleb_decode_total bs H). reflexivity. Qed.
+
+(* ---- RepeatUntilExcluding: a list whose terminator is missing is a parse error, wherever the data ends:
+   on an element boundary (including the empty input) or inside an element *)
+Lemma repeat_until_unterminated : forall A (d : dec A) (stop : A -> bool) enc xs fuel,
+  (forall x t, d (enc x ++ t) = Some (x, t)) -> d [] = None ->
+  forallb (fun x => negb (stop x)) xs = true ->
+  repeat_until fuel d stop (concat (map enc xs)) = None.
+Proof.
+  intros A d stop enc xs. induction xs as [|x r IH]; intros fuel Hd Hnil Hns.
+  - destruct fuel as [|f]; cbn [repeat_until concat map]; [reflexivity | rewrite Hnil; reflexivity].
+  - cbn [forallb] in Hns. apply andb_prop in Hns. destruct Hns as [Hx Hr].
+    destruct fuel as [|f]; [reflexivity|].
+    cbn [repeat_until concat map]. rewrite Hd.
+    destruct (stop x); [discriminate Hx|]. rewrite (IH f Hd Hnil Hr). reflexivity.
+Qed.
+
+Lemma repeat_until_cut_inside : forall A (d : dec A) (stop : A -> bool) enc xs cut fuel,
+  (forall x t, d (enc x ++ t) = Some (x, t)) -> d cut = None ->
+  forallb (fun x => negb (stop x)) xs = true ->
+  repeat_until fuel d stop (concat (map enc xs) ++ cut) = None.
+Proof.
+  intros A d stop enc xs cut. induction xs as [|x r IH]; intros fuel Hd Hcut Hns.
+  - destruct fuel as [|f]; cbn [repeat_until concat map app]; [reflexivity | rewrite Hcut; reflexivity].
+  - cbn [forallb] in Hns. apply andb_prop in Hns. destruct Hns as [Hx Hr].
+    destruct fuel as [|f]; [reflexivity|].
+    cbn [repeat_until concat map]. rewrite <- app_assoc, Hd.
+    destruct (stop x); [discriminate Hx|]. rewrite (IH f Hd Hcut Hr). reflexivity.
+Qed.
